@@ -318,7 +318,7 @@ def to_signum(signum):
     except ValueError:
         pass
 
-    m = re.match(r'(\w+)(\+(\d+))?', signum)
+    m = re.match(r'(\w+)(\+(\d+))?$', signum)
     if m:
         name = m.group(1).upper()
         if not name.startswith('SIG'):
@@ -327,7 +327,7 @@ def to_signum(signum):
         offset = int(m.group(3)) if m.group(3) else 0
 
         try:
-            return getattr(signal, name) + offset
+            return signal.Signals[name] + offset
         except KeyError:
             pass
 
